@@ -29,11 +29,14 @@ IsBranchEv(e) == e.b >= 0 /\ e.ev \in {"init", "opnd", "enter", "arrive", "exit"
 IsCallerEv(e) == (e.b = -1 /\ e.ev \in {"joiner", "hexpr", "hcall", "end", "panic", "begin"})
                  \/ e.ev = "cap"
 
+\* with lazy_branches(false) only the job (the closure the branch expression evaluates to) runs on the branch's thread
+IsJobEv(e) == e.ev \in {"enter", "exit", "panic"} /\ e.id \in JobIds(s.prog)
+
 \* C08: thread identity of sync events.  Returns the new `thr` or {"bad"} sentinel via ThreadOK.
 ThreadOK(e, r) ==
   LET P == s.prog IN
   IF IsAsync(P) \/ e.ev = "begin" THEN TRUE
-  ELSE IF IsBranchEv(e) /\ IsSpawn(P) /\ Cardinality(Active(P, s.k)) > 1
+  ELSE IF IsBranchEv(e) /\ IsSpawn(P) /\ Cardinality(Active(P, s.k)) > 1 /\ (EagerSpawn(P) => IsJobEv(e))
   THEN /\ r.thr = ThreadName(e.b)
        /\ r.tid # caller.tid
        /\ LET mine == {t \in thr : t.k = s.k /\ t.b = e.b} IN
@@ -43,7 +46,7 @@ ThreadOK(e, r) ==
   ELSE TRUE
 
 ThrNext(e, r) ==
-  IF ~IsAsync(s.prog) /\ IsBranchEv(e) /\ IsSpawn(s.prog) /\ Cardinality(Active(s.prog, s.k)) > 1
+  IF ~IsAsync(s.prog) /\ IsBranchEv(e) /\ IsSpawn(s.prog) /\ Cardinality(Active(s.prog, s.k)) > 1 /\ (EagerSpawn(s.prog) => IsJobEv(e))
   THEN thr \cup {[k |-> s.k, b |-> e.b, tid |-> r.tid]}
   ELSE thr
 
